@@ -99,6 +99,11 @@ func runC13Emb(c *C13Emb) (removed bool, err error) {
 		return runC13MemCap(c)
 	}
 	now := maxTS(c.Data.Points)
+	// a dataset split between file and memstore moves to the file on its own
+	// (adaptive flush timer), so a disk-only query has no stable ground truth there
+	if has(c.Data.splitLabels(), "disk+mem") {
+		c.Mem = true
+	}
 	conf := h.DBConf{}
 	if c.Companion != "" {
 		conf.CoalesceMS = 25
